@@ -580,6 +580,8 @@ OohSorted == \A s \in Series : /\ Len(ooh[s]) <= OOOCap
 
 -----------------------------------------------------------------------------
 (* Emission *)
+NChunks(q) == Cardinality({x.t \div R : x \in Range(q)})
+MaxChunks(f) == SetMax({NChunks(f[s]) : s \in Series})
 LastRec == hist'[Len(hist')]
 Class == LET r == LastRec IN
          IF r.a = "Append" THEN <<r.a, r.ret, r.ooo, r.ty, r.v = 0, app[r.app].st, app[r.app].api, app[r.app].rej,
@@ -589,7 +591,9 @@ Class == LET r == LastRec IN
          ELSE IF r.a = "Commit" THEN <<r.a, r.kf, Len(app[r.app].pend), app[r.app].nb, stored' = stored,
                                        Cardinality(UNION {stored'[s] \ stored[s] : s \in Series}),
                                        ooh' # ooh, oom' # oom, app[r.app].st>>
-         ELSE IF r.a = "Compact" THEN <<r.a, r.nblocks, ooh' # ooh \/ oom' # oom, blkMax = NegInf>>
+         ELSE IF r.a = "Compact" THEN <<r.a, r.nblocks, ooh' # ooh \/ oom' # oom, blkMax = NegInf, r.kf,
+                                        \* number of head chunks (one per chunk range) of the fullest series before / after
+                                        MaxChunks(ino), MaxChunks(ino')>>
          ELSE IF r.a = "Delete" THEN <<r.a, r.kf, stored' # stored, hdel' # hdel, ooh' # ooh \/ oom' # oom, blk' # blk>>
          ELSE IF r.a = "Import" THEN <<r.a, stored' = [stored EXCEPT !["s1"] = @ \cup {[t |-> r.lo, v |-> 2, ty |-> "f"], [t |-> r.hi, v |-> 2, ty |-> "f"]}],
                                       r.hi + 1 > blkMax, blkMax = NegInf, ino' # ino>>
